@@ -20,6 +20,7 @@ import (
 	"encoding/binary"
 	"fmt"
 	"math/rand"
+	"slices"
 	"sort"
 	"strings"
 	"sync"
@@ -154,6 +155,7 @@ func (c *GroupCoordinator) JoinGroup(ctx context.Context, req *kmsg.JoinGroupReq
 	} else if member.sessionTimeout == 0 {
 		member.sessionTimeout = defaultSessionTimeout
 	}
+	previousTopics := member.topics
 	member.topics = c.parseSubscriptionTopics(req.Protocols)
 	member.lastHeartbeat = time.Now()
 
@@ -161,6 +163,10 @@ func (c *GroupCoordinator) JoinGroup(ctx context.Context, req *kmsg.JoinGroupReq
 		state.leaderID = memberID
 		state.startRebalance(timeout)
 	} else if state.state == groupStateStable && !exists {
+		state.startRebalance(timeout)
+	} else if state.state == groupStateStable && !slices.Equal(previousTopics, member.topics) {
+		// A known member changed its subscription: the current assignment no
+		// longer matches what the group subscribes to.
 		state.startRebalance(timeout)
 	} else if state.state == groupStateEmpty {
 		state.startRebalance(timeout)
